@@ -109,6 +109,16 @@ CLAIMS = {
             "tree is never written; every source child is merged or cloned. One known finding (name/type selector mismatch). "
             "NOT decided: value level merging of value lists, text normalisation.",
             "CFG dominance + sibling skeleton agreement + write footprint summaries (ast)"),
+    "C14": ("traversal / lookup discipline clauses; the relative path arithmetic is not decided",
+            "Decides: itersections is a FIFO work list (breadth first) whose loop ends only when the list is empty; every dequeued "
+            "(section, level) is yielded only under filter_func and the yield_self rule and has its children enqueued exactly once as "
+            "(child, level + 1) exactly when max_depth allows; the seeds are (self, 0) or the Document's children at level 1; "
+            "iterproperties / itervalues are derived from it with max_depth forwarded and yield each element under their filter; path "
+            "builders and parsers use the same separators; path lookup descends through the node's own children / parent / document; "
+            "find inspects the own children only; find_related hands out an object only inside the block of the requested relation "
+            "flag and recurses with siblings=False, parents=False. NOT decided: _get_relative_path's string arithmetic, that a name "
+            "denotes one child (C04), the value comparisons of _matches.",
+            "work-list typestate + path-form guards over expanded expressions + separator table agreement (ast, CFG)"),
     "C15": ("logging / table / source clauses",
             "Decides: every dropped element is logged in the same block; the filters test the 1.1 table of the matching level; created "
             "and renamed tags are 1.1 keys; ids kept when valid, replaced when missing or malformed, always present; root stamped with "
@@ -150,12 +160,7 @@ CLAIMS = {
             "table agreement (regex alternations, vocabulary) + shared-state lint + recursion skeleton check (ast)"),
 }
 
-NOT_APPLICABLE = {
-    "C14": "every clause relates concrete tree shapes and name strings to results of string/path arithmetic "
-           "(posixpath, split) and queue-order iteration; no ordering/pairing/ownership/table clause exists whose "
-           "violation is visible without evaluating those functions on values (termination of the walks is covered "
-           "under C03); a literal-agreement lint would be a brittle proxy",
-}
+NOT_APPLICABLE = {}
 
 PENDING_REASON = "check under construction in this session (engine exists, rule set not armed yet) - not claimed until it is"
 
